@@ -110,6 +110,15 @@ CLAIMED["C14"] = (
     "XSD parsed at run time - that element names match and every numeral lies in the lexical space of its XSD type.",
     "element tree handed from writer to reader (serialiser contract); str(float)/float(str) and str(int)/int(str) contracts; "
     "date attribute, minidom pretty printing and processor_name='auto' outside", "2/C14")
+CLAIMED["C01"] = (
+    "25 skeleton scenarios (lanelets with stop line and references, signs, lights, intersection, every obstacle role and shape "
+    "kind, six state classes, set-based predictions, signal states, region/interval-valued states, planning problems with "
+    "every goal-position kind, header/location) are built through the public constructors with every numeric and boolean "
+    "leaf symbolic, written by the real XML node builders into a DOM tree and read back by the real reader factories; z3 "
+    "proves for every leaf that discrete values are identical and reals differ by less than 10^-d, for the number-formatting "
+    "contract of str/format/float; float_to_str is proved separately for every float and precision 1..12.",
+    "DOM passthrough instead of lxml/expat; repr/float contract; all real leaves of an obligation in one magnitude regime "
+    "(normal or tiny); precision in {1,4,12} quick / 1..12 thorough; known finding: traffic-sign 'virtual' flag", "2/C01")
 NOT_YET = {}
 
 props = [json.loads(l) for l in open(os.path.join(ROOT, "properties.jsonl"))]
